@@ -95,6 +95,10 @@ type Session struct {
 	msgMeta     *module.MsgMetadata
 	delivery    module.Delivery
 	deliveryErr error
+	// Accepted recipients: normalized address (as passed to the delivery) =>
+	// RCPT TO arguments as sent by the client. go-smtp uses the latter as keys
+	// for per-recipient LMTP statuses.
+	rcptKeys map[string][]string
 
 	log log.Logger
 }
@@ -155,6 +159,7 @@ func (s *Session) cleanSession() {
 	s.msgMeta = nil
 	s.delivery = nil
 	s.deliveryErr = nil
+	s.rcptKeys = nil
 	s.msgCtx = nil
 	s.msgTask.End()
 }
@@ -424,7 +429,14 @@ func (s *Session) rcpt(ctx context.Context, to string, opts *smtp.RcptOptions) e
 		}
 	}
 
-	return s.delivery.AddRcpt(ctx, cleanTo, *opts)
+	if err := s.delivery.AddRcpt(ctx, cleanTo, *opts); err != nil {
+		return err
+	}
+	if s.rcptKeys == nil {
+		s.rcptKeys = make(map[string][]string)
+	}
+	s.rcptKeys[cleanTo] = append(s.rcptKeys[cleanTo], to)
+	return nil
 }
 
 func (s *Session) Logout() error {
@@ -534,10 +546,37 @@ func (s *Session) Data(r io.Reader) error {
 type statusWrapper struct {
 	sc smtp.StatusCollector
 	s  *Session
+
+	// SetStatus can be called from multiple goroutines.
+	lock sync.Mutex
 }
 
-func (sw statusWrapper) SetStatus(rcpt string, err error) {
-	sw.sc.SetStatus(rcpt, sw.s.endp.wrapErr(sw.s.msgMeta.ID, !sw.s.opts.UTF8, "DATA", err))
+// SetStatus translates the status reported by the pipeline into what go-smtp
+// accepts: it panics if the address is not a literal RCPT TO argument or if
+// it gets more statuses than there were RCPT TO commands with that address,
+// while the pipeline reports normalized addresses, once per target handling
+// the recipient.
+//
+// Recipients left without a status get the result of LMTPData from go-smtp
+// (success unless Commit fails). Success is therefore not reported from here:
+// another target can still fail for the same recipient.
+func (sw *statusWrapper) SetStatus(rcpt string, err error) {
+	if err == nil {
+		return
+	}
+
+	sw.lock.Lock()
+	defer sw.lock.Unlock()
+
+	keys := sw.s.rcptKeys[rcpt]
+	if len(keys) == 0 {
+		// Every RCPT TO with this address got its failure status already.
+		sw.s.log.DebugMsg("LMTP status dropped", "rcpt", rcpt, "msg_id", sw.s.msgMeta.ID)
+		return
+	}
+	sw.s.rcptKeys[rcpt] = keys[1:]
+
+	sw.sc.SetStatus(keys[0], sw.s.endp.wrapErr(sw.s.msgMeta.ID, !sw.s.opts.UTF8, "DATA", err))
 }
 
 func (s *Session) LMTPData(r io.Reader, sc smtp.StatusCollector) error {
@@ -578,7 +617,7 @@ func (s *Session) LMTPData(r io.Reader, sc smtp.StatusCollector) error {
 		return wrapErr(err)
 	}
 
-	s.delivery.(module.PartialDelivery).BodyNonAtomic(bodyCtx, statusWrapper{sc, s}, header, buf)
+	s.delivery.(module.PartialDelivery).BodyNonAtomic(bodyCtx, &statusWrapper{sc: sc, s: s}, header, buf)
 
 	// We can't really tell whether it is failed completely or succeeded
 	// so always commit. Should be harmless, anyway.
